@@ -83,12 +83,15 @@ func init() {
 		return []string{"G_alloc", e.heapMap("F_sync.Cond.L", "(Array Int Iface)")}
 	}
 	models["(*sync.Cond).Broadcast"] = func(e *Exec, fr *Frame, st *State, args []Val, cc *ssa.CallCommon, pos token.Pos) Val {
-		m := e.heapMap("GB_signalled", "(Array Int Bool)")
-		e.hset(st, m, sto(e.hget(st, m), args[0].T, "true"))
+		// ghost counter of wake-ups issued on this condition variable: contracts state "a Broadcast was
+		// issued" as broadcasts(c) > old(broadcasts(c))
+		m := e.heapMap("GU_broadcasts", "(Array Int Int)")
+		h := e.hget(st, m)
+		e.hset(st, m, sto(h, args[0].T, "(+ "+sel(h, args[0].T)+" 1)"))
 		return Val{T: "0"}
 	}
 	modelEffects["(*sync.Cond).Broadcast"] = func(e *Exec, cc *ssa.CallCommon) []string {
-		return []string{e.heapMap("GB_signalled", "(Array Int Bool)")}
+		return []string{e.heapMap("GU_broadcasts", "(Array Int Int)")}
 	}
 	models["(*sync.Cond).Signal"] = models["(*sync.Cond).Broadcast"]
 	modelEffects["(*sync.Cond).Signal"] = modelEffects["(*sync.Cond).Broadcast"]
